@@ -21,7 +21,8 @@ RULE = ('(a) registry histories: generated sequences of clock advances, is_alive
         'pool asserting after every operation that the workers it acquired are still its own and nobody else\'s; (c) pool-level '
         'operations (call_and_wait, run, as_completed incl. failing tasks) on the fake transport must leave no worker acquired; '
         'non-trivial = a late heartbeat after an unregister / two pools touching the same worker with >= 1 preemption / a failing '
-        'task; distinct = distinct canonical case JSON')
+        'task; distinct = distinct canonical case JSON'
+        '; also: other workers joining the registry (1..130), life/death notices through the real heartbeat handler with several kinds of truth values, a worker dying while acquired, early-closed as_completed, pools built over re-timed worker objects')
 ASSUMPTIONS = [
     'harness clock replaces time in courier_utils so heartbeat staleness is driven by the generated history, not by machine load',
     'same scheduler trusted base as C04 for the concurrent parts; the transport is the in-process fake (vlib/fake_courier)',
